@@ -16,6 +16,10 @@ pub enum Fmt {
 pub const ALLOC_CAP: usize = 1 << 31;
 
 pub fn compress(c: &mut Case, fmt: Fmt, input: &[u8]) -> Option<Result<Vec<u8>, String>> {
+    // exact-size private copy at a (usually) odd address: over-reads hit a red zone under the
+    // sanitizer lanes, word loads through pointer casts trip the alignment checks
+    let tight_copy = crate::monitor::tight(input);
+    let input: &[u8] = &tight_copy;
     monitor::alloc_watch_begin(ALLOC_CAP);
     // both public entry points: the format struct, and the CompressionFormat enum that the
     // layered filesystem dispatches through (chosen by the parity of the input length)
@@ -31,6 +35,8 @@ pub fn compress(c: &mut Case, fmt: Fmt, input: &[u8]) -> Option<Result<Vec<u8>, 
 }
 
 pub fn decompress(c: &mut Case, fmt: Fmt, stream: &[u8]) -> Option<Result<Vec<u8>, String>> {
+    let tight_copy = crate::monitor::tight(stream);
+    let stream: &[u8] = &tight_copy;
     c.lib(if fmt == Fmt::Lz10 { "LZ10 decompress" } else { "LZ13 decompress" }, || match fmt {
         Fmt::Lz10 => LZ10CompressionFormat {}.decompress(stream).map_err(|e| e.to_string()),
         Fmt::Lz13 => LZ13CompressionFormat {}.decompress(stream).map_err(|e| e.to_string()),
